@@ -104,10 +104,120 @@ def idx_rows(rows, alph):
     return [[alph.index(c) for c in r] for r in rows]
 
 
-def build(alph, rows, kind="ragged", text=False):
-    """rows: list of str over alph.  kind: ragged | flat (one row, 1-D EncodedArray) | 2d (equal lengths, 2-D EncodedArray)"""
+# ---- input history: the same logical rows presented as a NOT-YET-FLATTENED VIEW of a larger array (reads[order], reads[::-1],
+# reads[mask], reads[1:], reads[:, 1:], reads[:, :-1] ...).  A view keeps the parent's data buffer and row offsets until somebody
+# calls .ravel() on it; code that flattens and re-wraps with a row layout captured from the view's internals goes wrong only here.
+ROW_VIEWS = ["rev", "order", "dup", "mask", "tail", "head", "mid", "step", "tail-rev"]
+COL_VIEWS = ["col-left", "col-right", "col-both", "col-left2", "rev+col-left", "tail+col-right", "col-left+order"]
+VIEWS = ["rev", "col-left", "order", "col-right", "mask", "tail+col-right", "tail", "col-both", "dup", "rev+col-left", "head",
+         "col-left+order", "mid", "col-left2", "step", "tail-rev"]
+VIEWS_2D = ["rev", "col-left", "tail", "col-right", "step", "col-both", "head", "rev+col-left", "mid", "tail+col-right", "tail-rev", "col-left2"]
+VIEWS_FLAT = ["rev", "step", "tail", "head", "mid"]
+_DECOY_LEN = [2, 0, 3, 1, 5]
+
+
+def view_rows(rows, view):
+    """the logical rows of the view variant of a case (the 'dup' view selects row 0 a second time, at the end)"""
+    return list(rows) + [rows[0]] if view == "dup" else list(rows)
+
+
+def view_recipe(alph, rows, view, same_len=False):
+    """-> (base_rows, [index, ...]) such that base[index0][index1].. has exactly `rows`, in order, and is a view of base.
+    Decoy rows / letters are what a stale offset would pick up; same_len: decoy rows as long as the rows (2-D input)."""
+    import numpy as np
+    A, n = len(alph), len(rows)
+
+    def d(i):
+        L = len(rows[0]) if same_len else _DECOY_LEN[i % 5] + i // 5
+        return "".join(alph[(i * 5 + j * 3 + (j * j) // 2 + 1) % A] for j in range(L))
+
+    def left(r, i, m=1):       # m letters in front, the last of them differs from the row's first letter
+        out = ""
+        for t in range(m):
+            ref = alph.index(r[0]) if r else i
+            out = alph[(ref + 1 + (i + t) % (A - 1)) % A] + out
+        return out + r
+
+    def right(r, i):
+        ref = alph.index(r[-1]) if r else i
+        return r + alph[(ref + 1 + i % (A - 1)) % A]
+
+    S = slice
+    order = [1 + (j - 1) % n for j in range(n)]     # row j of the view sits at base row 1 + (j-1) % n
+    rot = lambda lst: [lst[(i + 1) % n] for i in range(n)]
+    if view == "rev":
+        return rows[::-1], [S(None, None, -1)]
+    if view == "order":
+        return [d(0)] + rot(rows), [np.array(order)]
+    if view == "dup":
+        assert n >= 2 and rows[-1] == rows[0]
+        return rows[:-1] + [d(0)], [list(range(n - 1)) + [0]]
+    if view == "mask":
+        base, mask = [], []
+        for j, r in enumerate(rows):
+            if j % 2 == 0:
+                base.append(d(j)), mask.append(False)
+            base.append(r), mask.append(True)
+        base.append(d(n)), mask.append(False)
+        return base, [np.array(mask)]
+    if view == "tail":
+        return [d(0)] + rows, [S(1, None)]
+    if view == "head":
+        return rows + [d(0)], [S(None, -1)]
+    if view == "mid":
+        return [d(0)] + rows + [d(1)], [S(1, -1)]
+    if view == "step":
+        return [x for j, r in enumerate(rows) for x in (r, d(j))], [S(None, None, 2)]
+    if view == "tail-rev":
+        return [d(0)] + rows[::-1], [S(1, None), S(None, None, -1)]
+    if view == "col-left":
+        return [left(r, i) for i, r in enumerate(rows)], [(S(None), S(1, None))]
+    if view == "col-left2":
+        return [left(r, i, 2) for i, r in enumerate(rows)], [(S(None), S(2, None))]
+    if view == "col-right":
+        return [right(r, i) for i, r in enumerate(rows)], [(S(None), S(None, -1))]
+    if view == "col-both":
+        return [right(left(r, i), i) for i, r in enumerate(rows)], [(S(None), S(1, -1))]
+    if view == "rev+col-left":
+        return [left(r, i) for i, r in enumerate(rows)][::-1], [S(None, None, -1), (S(None), S(1, None))]
+    if view == "tail+col-right":
+        return [right(d(0), 7)] + [right(r, i) for i, r in enumerate(rows)], [(S(1, None), S(None, -1))]
+    if view == "col-left+order":
+        return [left(d(0), 7)] + rot([left(r, i) for i, r in enumerate(rows)]), [(S(None), S(1, None)), np.array(order)]
+    raise ValueError(view)
+
+
+def view_tag(view):
+    return ":view" if view else ""
+
+
+def build(alph, rows, kind="ragged", text=False, view=None):
+    """rows: list of str over alph.  kind: ragged | flat (one row, 1-D EncodedArray) | 2d (equal lengths, 2-D EncodedArray).
+    view: None = freshly built contiguous array; else the rows as an unflattened view of a larger array (see view_recipe)"""
     import numpy as np
     from bionumpy.encoded_array import EncodedArray, EncodedRaggedArray, BaseEncoding
+    if view is not None:
+        if kind == "flat":
+            r = rows[0]
+            dec = "".join(alph[(i * 3 + 1) % len(alph)] for i in range(len(r) + 2))
+            if view == "step":
+                base, idx = "".join(a + b for a, b in zip(r, dec)), slice(None, None, 2)
+            else:
+                base, idx = {"rev": (r[::-1], slice(None, None, -1)), "tail": (dec[:2] + r, slice(2, None)),
+                             "head": (r + dec[:2], slice(None, -2)), "mid": (dec[:1] + r + dec[:2], slice(1, -2))}[view]
+            res = build(alph, [base], "flat", text)[idx]
+            assert len(res) == len(r)
+            return res
+        base_rows, idxs = view_recipe(alph, rows, view, same_len=(kind == "2d"))
+        res = build(alph, base_rows, kind, text)
+        for idx in idxs:
+            res = res[idx]
+        if kind == "ragged":
+            # lengths are read from the view's own bookkeeping: this does not flatten it
+            assert not res.is_contigous and res.lengths.tolist() == [len(r) for r in rows], (view, rows, res.lengths)
+        else:
+            assert res.shape == (len(rows), len(rows[0])), (view, rows, res.shape)
+        return res
     if text:
         enc = BaseEncoding
         flat = np.frombuffer("".join(rows).encode(), dtype=np.uint8).copy()
@@ -121,6 +231,23 @@ def build(alph, rows, kind="ragged", text=False):
         assert len(set(len(r) for r in rows)) == 1
         return EncodedArray(flat.reshape(len(rows), len(rows[0])), enc)
     return EncodedRaggedArray(EncodedArray(flat, enc), np.array([len(r) for r in rows], dtype=int))
+
+
+_VIEW_SEEN = set()
+
+
+def view_input(alph, rows, kind, text, view):
+    """the input for a case; for a view the FIRST case of every (view, kind, text, |A|, lengths) also checks, on a twin that is
+    not passed on, that the view really holds the wanted rows (guards the generator and the indexing it relies on)"""
+    if view is not None:
+        key = (view, kind, text, len(alph), tuple(len(r) for r in rows))
+        if key not in _VIEW_SEEN:
+            _VIEW_SEEN.add(key)
+            twin = build(alph, rows, kind, text, view)
+            fresh = build(alph, rows, kind, text)
+            a, b = twin.raw().tolist(), fresh.raw().tolist()
+            assert a == b, ("view generator broken", view, kind, rows, a, b)
+    return build(alph, rows, kind, text, view)
 
 
 def rows_of(res, kind):
@@ -149,7 +276,7 @@ def close(a, b):
 def w1sig(sig):
     """at w = 1 the known symptom (every row empty) is one finding per function, whatever the input kind / encoding"""
     ren = {"ascii-to-dna": "bitpacked", "generic-rolling": "generic"}
-    return ":".join(ren.get(p, p) for p in sig.split(":") if p not in ("flat1d", "array2d", "ragged", "ascii", "alphabet"))
+    return ":".join(ren.get(p, p) for p in sig.split(":") if p not in ("flat1d", "array2d", "ragged", "ascii", "alphabet", "view"))
 
 
 def compare(col, sig, case, got, exp, lengths, w):
@@ -171,7 +298,7 @@ def compare(col, sig, case, got, exp, lengths, w):
 
 
 # ----------------------------------------------------------------------------------------------- contracts
-def check_kmers(col, alph, rows, k, path="api", kind="ragged", render=True):
+def check_kmers(col, alph, rows, k, path="api", kind="ragged", render=True, view=None):
     """path: api (bnp get_kmers: bit-packed for |A|=4, generic otherwise) | rolling (KmerEncoder.rolling_window) |
     text (get_kmers on ASCII text, converted to DNA by the function)"""
     from bionumpy.sequence import get_kmers
@@ -179,10 +306,12 @@ def check_kmers(col, alph, rows, k, path="api", kind="ragged", render=True):
     from bionumpy.encodings.kmer_encodings import KmerEncoding
     A = len(alph)
     case = {"fn": "kmers", "alph": alph, "rows": rows, "k": k, "path": path, "kind": kind}
+    if view:
+        case["view"] = view
     pname = {"api": "bitpacked" if A == 4 else "generic", "rolling": "generic-rolling", "text": "ascii-to-dna"}[path]
-    sig = "get_kmers:%s%s" % (pname, kind_tag(kind))
-    col.case(case, contract="get_kmers:" + pname)
-    seqs = build(alph, rows, kind, text=(path == "text"))
+    sig = "get_kmers:%s%s%s" % (pname, kind_tag(kind), view_tag(view))
+    col.case(case, contract="get_kmers:" + pname + view_tag(view))
+    seqs = view_input(alph, rows, kind, path == "text", view)
     if path == "rolling":
         res = col.guarded(lambda: KmerEncoder(k, enc_of(alph)).rolling_window(seqs), sig + (":w=1" if k == 1 else ""), case)
     else:
@@ -243,14 +372,16 @@ def check_kmer_codec(col, alph, k, texts):
         col.check([int(x) for x in enc] == codes, "kmer-encoder-call:wrong-code", case, "got %r expected %r" % (enc, codes))
 
 
-def check_minimizers(col, alph, rows, k, w, kind="ragged"):
+def check_minimizers(col, alph, rows, k, w, kind="ragged", view=None):
     from bionumpy.sequence import get_minimizers
     from bionumpy.encodings.kmer_encodings import KmerEncoding
     A = len(alph)
     case = {"fn": "minimizers", "alph": alph, "rows": rows, "k": k, "w": w, "kind": kind}
-    sig = "get_minimizers%s" % kind_tag(kind)
-    col.case(case, contract="get_minimizers")
-    seqs = build(alph, rows, kind)
+    if view:
+        case["view"] = view
+    sig = "get_minimizers%s%s" % (kind_tag(kind), view_tag(view))
+    col.case(case, contract="get_minimizers" + view_tag(view))
+    seqs = view_input(alph, rows, kind, False, view)
     res = col.guarded(lambda: get_minimizers(seqs, k, w), "get_minimizers:k=1" if k == 1 else sig, case)
     if res is None:
         return
@@ -264,12 +395,14 @@ def check_minimizers(col, alph, rows, k, w, kind="ragged"):
     col.check(res.encoding == KmerEncoding(enc_of(alph), k), sig + ":wrong-result-encoding", case, "encoding %r" % (res.encoding,))
 
 
-def check_match(col, alph, rows, pat, text, kind="ragged", pat_as="str"):
+def check_match(col, alph, rows, pat, text, kind="ragged", pat_as="str", view=None):
     import bionumpy as bnp
     case = {"fn": "match", "alph": alph, "rows": rows, "pat": pat, "text": text, "kind": kind, "pat_as": pat_as}
-    sig = "match_string:%s%s" % ("ascii" if text else "alphabet", kind_tag(kind))
-    col.case(case, contract="match_string")
-    seqs = build(alph, rows, kind, text=text)
+    if view:
+        case["view"] = view
+    sig = "match_string:%s%s%s" % ("ascii" if text else "alphabet", kind_tag(kind), view_tag(view))
+    col.case(case, contract="match_string" + view_tag(view))
+    seqs = view_input(alph, rows, kind, text, view)
     p = pat if pat_as == "str" else build(alph, [pat], "flat", text=text)
     res = col.guarded(lambda: bnp.match_string(seqs, p), sig + (":w=1" if len(pat) == 1 else ""), case)
     if res is None:
@@ -290,15 +423,17 @@ def make_matrix(A, w, style):
     return [[float((a * 7 + j * 3 + (a * j) % 5) % 11 - 4) for j in range(w)] for a in range(A)]
 
 
-def check_motif(col, alph, rows, w, style, text=False, kind="ragged", old=False):
+def check_motif(col, alph, rows, w, style, text=False, kind="ragged", old=False, view=None):
     import numpy as np
     from bionumpy.sequence.position_weight_matrix import PWM, get_motif_scores, get_motif_scores_old
     A = len(alph)
     M = make_matrix(A, w, style)
     case = {"fn": "motif", "alph": alph, "rows": rows, "w": w, "style": style, "text": text, "kind": kind, "old": old}
-    sig = "%s%s%s" % ("motif_scores_rolling" if old else "get_motif_scores", ":ascii" if text else "", kind_tag(kind))
-    col.case(case, contract="motif_scores_rolling" if old else "get_motif_scores")
-    seqs = build(alph, rows, kind, text=text)
+    if view:
+        case["view"] = view
+    sig = "%s%s%s%s" % ("motif_scores_rolling" if old else "get_motif_scores", ":ascii" if text else "", kind_tag(kind), view_tag(view))
+    col.case(case, contract=("motif_scores_rolling" if old else "get_motif_scores") + view_tag(view))
+    seqs = view_input(alph, rows, kind, text, view)
     pwm = PWM(np.array(M, dtype=float), alph)
     f = get_motif_scores_old if old else get_motif_scores
     res = col.guarded(lambda: f(seqs, pwm), sig + (":w=1" if w == 1 else ""), case)
@@ -313,13 +448,17 @@ def check_motif(col, alph, rows, w, style, text=False, kind="ragged", old=False)
 _LABELS_OK = {}
 
 
-def check_counts(col, alph, rows, k, axis):
+def check_counts(col, alph, rows, k, axis, view=None, text=False):
     from bionumpy.sequence import count_kmers
     A = len(alph)
     case = {"fn": "counts", "alph": alph, "rows": rows, "k": k, "axis": axis}
-    sig = "count_kmers:%s" % ("all" if axis is None else "per-row")
-    col.case(case, contract="count_kmers")
-    seqs = build(alph, rows)
+    if view:
+        case["view"] = view
+    if text:
+        case["text"] = True
+    sig = "count_kmers:%s%s" % ("all" if axis is None else "per-row", view_tag(view))
+    col.case(case, contract="count_kmers" + view_tag(view))
+    seqs = view_input(alph, rows, "ragged", text, view)
     res = col.guarded(lambda: count_kmers(seqs, k, axis=axis), sig + (":w=1" if k == 1 else ""), case)
     if res is None:
         return
@@ -356,19 +495,31 @@ def check_counts(col, alph, rows, k, axis):
             col.check(g == exp[c], sig + ":lookup-wrong-count", case, "res[%r] = %d expected %d" % (o_text(c, alph, k), g, exp[c]))
 
 
-def check_util_rolling(col, rows, w, kind):
-    """bionumpy.util.rolling_window_function with f = weighted window sum (position-sensitive)"""
+def check_util_rolling(col, rows, w, kind, view=None):
+    """bionumpy.util.rolling_window_function with f = weighted window sum (position-sensitive); values 1..8"""
     import numpy as np
     from npstructures import RaggedArray
     from bionumpy.util import rolling_window_function
     case = {"fn": "util", "rows": rows, "w": w, "kind": kind}
+    if view:
+        case["view"] = view
     sig = "util.rolling_window_function:%s" % ("ragged" if kind == "ragged" else "array2d")
-    col.case(case, contract="util.rolling_window_function")
+    col.case(case, contract="util.rolling_window_function" + view_tag(view))
     f = rolling_window_function(lambda windows, ws: (windows * (10 ** np.arange(ws))).sum(axis=-1))
-    x = RaggedArray([list(r) for r in rows]) if kind == "ragged" else np.array(rows, dtype=int)
+    mk = (lambda rr: RaggedArray([list(r) for r in rr])) if kind == "ragged" else (lambda rr: np.array(rr, dtype=int))
+    if view:
+        base, idxs = view_recipe("12345678", ["".join(str(v) for v in r) for r in rows], view, same_len=(kind != "ragged"))
+        x = mk([[int(c) for c in r] for r in base])
+        for idx in idxs:
+            x = x[idx]
+        assert (x.lengths.tolist() if kind == "ragged" else [x.shape[1]] * x.shape[0]) == [len(r) for r in rows]
+    else:
+        x = mk(rows)
+    # (an exception keeps the untagged signature: the function fails on EVERY ragged input, view or not - one finding)
     res = col.guarded(lambda: f(x, w), sig + (":w=1" if w == 1 else ""), case)
     if res is None:
         return
+    sig += view_tag(view)
     got = [[int(v) for v in r] for r in res.tolist()]
     exp = [[sum(r[i + j] * 10 ** j for j in range(w)) for i in range(len(r) - w + 1)] for r in rows]
     compare(col, sig, case, got, exp, [len(r) for r in rows], w)
